@@ -31,6 +31,7 @@ type ConnHistory struct {
 	HandshakeDone bool
 	Offered       bool // the listener took the connection into its backlog
 	Accepted      bool // Accept returned it to the server
+	AcceptedAt    int64
 
 	C2S, S2C HalfRecord
 	Client   *ClientHistory
